@@ -100,3 +100,45 @@ pub proof fn lemma_idx_inj(i: int, j: int, a: int, b: int, cols: int)
 pub assume_specification<T> [<[T]>::swap] (s: &mut [T], a: usize, b: usize)
     requires a < old(s)@.len(), b < old(s)@.len(),
     ensures final(s)@ == old(s)@.update(a as int, old(s)@[b as int]).update(b as int, old(s)@[a as int]);
+
+pub uninterp spec fn f64_abs_spec(x: f64) -> f64;
+// f64 methods: uninterpreted spec functions (floating point has no semantics in Verus)
+pub uninterp spec fn f64_sqrt_spec(x: f64) -> f64;
+pub uninterp spec fn f64_powf_spec(x: f64, p: f64) -> f64;
+pub uninterp spec fn f64_max_spec(x: f64, y: f64) -> f64;
+pub uninterp spec fn f64_sin_spec(x: f64) -> f64;
+pub uninterp spec fn f64_cos_spec(x: f64) -> f64;
+pub uninterp spec fn f64_sinh_spec(x: f64) -> f64;
+pub uninterp spec fn f64_cosh_spec(x: f64) -> f64;
+pub uninterp spec fn f64_exp_spec(x: f64) -> f64;
+pub uninterp spec fn f64_ln_spec(x: f64) -> f64;
+pub uninterp spec fn f64_atan2_spec(y: f64, x: f64) -> f64;
+pub assume_specification [f64::abs] (x: f64) -> (r: f64) ensures r == f64_abs_spec(x);
+pub assume_specification [f64::sqrt] (x: f64) -> (r: f64) ensures r == f64_sqrt_spec(x);
+pub assume_specification [f64::powf] (x: f64, p: f64) -> (r: f64) ensures r == f64_powf_spec(x, p);
+pub assume_specification [f64::max] (x: f64, y: f64) -> (r: f64) ensures r == f64_max_spec(x, y);
+pub assume_specification [f64::sin] (x: f64) -> (r: f64) ensures r == f64_sin_spec(x);
+pub assume_specification [f64::cos] (x: f64) -> (r: f64) ensures r == f64_cos_spec(x);
+pub assume_specification [f64::sinh] (x: f64) -> (r: f64) ensures r == f64_sinh_spec(x);
+pub assume_specification [f64::cosh] (x: f64) -> (r: f64) ensures r == f64_cosh_spec(x);
+pub assume_specification [f64::exp] (x: f64) -> (r: f64) ensures r == f64_exp_spec(x);
+pub assume_specification [f64::ln] (x: f64) -> (r: f64) ensures r == f64_ln_spec(x);
+pub assume_specification [f64::atan2] (y: f64, x: f64) -> (r: f64) ensures r == f64_atan2_spec(y, x);
+
+/// shorthand for the f64 operator terms
+pub open spec fn fadd(a: f64, b: f64) -> f64 { <f64 as AddSpec<f64>>::add_spec(a, b) }
+pub open spec fn fsub(a: f64, b: f64) -> f64 { <f64 as SubSpec<f64>>::sub_spec(a, b) }
+pub open spec fn fmul(a: f64, b: f64) -> f64 { <f64 as MulSpec<f64>>::mul_spec(a, b) }
+pub open spec fn fdiv(a: f64, b: f64) -> f64 { <f64 as DivSpec<f64>>::div_spec(a, b) }
+pub open spec fn flt(a: f64, b: f64) -> bool { a.partial_cmp_spec(&b) == Some(Ordering::Less) }
+pub open spec fn fle(a: f64, b: f64) -> bool { a.partial_cmp_spec(&b) == Some(Ordering::Less) || a.partial_cmp_spec(&b) == Some(Ordering::Equal) }
+/// f64 comparisons decide their spec (assumed: NaN-free reasoning is NOT assumed, only that `<` is a function of its operands)
+pub open spec fn h_f64cmp() -> bool {
+    &&& <f64 as PartialOrdSpec<f64>>::obeys_partial_cmp_spec()
+    &&& <f64 as PartialEqSpec<f64>>::obeys_eq_spec()
+}
+
+pub assume_specification<T, A: core::alloc::Allocator, F: FnMut() -> T> [Vec::<T, A>::resize_with] (v: &mut Vec<T, A>, new_len: usize, f: F)
+    ensures
+        final(v)@.len() == new_len,
+        forall|i: int| 0 <= i < new_len && i < old(v)@.len() ==> #[trigger] final(v)@[i] == old(v)@[i];
